@@ -52,3 +52,28 @@ Theorem C15_atomic_ok :
       \/ load_text parse (after_atomic render old new c) = LReg (persisted new).
 Proof. intros render parse H. exact (crash_atomic_ok render parse H). Qed.
 Print Assumptions C15_atomic_ok.
+
+(* an I/O error instead of a crash (the open, the buffered write or the flushing close of the save
+   fails with OSError, the process lives): "the registry as last successfully saved" presupposes
+   that a save which returns normally has written the file.  In the model every such error is
+   reported as the persistence write error, and a save that returns normally leaves a file that
+   loads to the registry that was saved *)
+Theorem C15_save_io_reports :
+  forall (render : list (Z * node) -> text) (parse : text -> option json),
+    (forall reg, parse (render reg) = Some (dump_registry reg)) ->
+    forall old new f, reg_ok new ->
+      match fst (save_io render old new f) with
+      | SaveDone => f = None /\ load_text parse (snd (save_io render old new f)) = LReg (persisted new)
+      | SaveWriteError => f <> None
+      end.
+Proof. intros render parse H. exact (save_io_reports render parse H). Qed.
+Print Assumptions C15_save_io_reports.
+
+(* why reporting matters: after a close that failed with part of the text flushed the file is unreadable *)
+Theorem C15_save_io_failed_close_extent :
+  forall (render : list (Z * node) -> text) (parse : text -> option json),
+    (forall reg n, (0 < n < List.length (render reg))%nat -> parse (firstn n (render reg)) = None) ->
+    forall old new kept, reg_ok new -> (0 < kept < List.length (render new))%nat ->
+      load_text parse (snd (save_io render old new (Some (FailClose kept)))) = LReadError.
+Proof. intros render parse H. exact (save_io_failed_close_extent render parse H). Qed.
+Print Assumptions C15_save_io_failed_close_extent.
